@@ -26,9 +26,9 @@ def mods():
     return _MODS['ut'], _MODS['ad']
 
 
-def usb_session(ch, cfg, default_timeout=None, select=('serial', 'SER1'), kernel_driver=False, frag=False, faults=None):
+def usb_session(ch, cfg, default_timeout=None, select=('serial', 'SER1'), kernel_driver=False, frag=False, faults=None, wcap=False):
     ut, ad = mods()
-    s = Session(ch, cfg, twin='sync', frag=frag)
+    s = Session(ch, cfg, twin='sync', frag=frag, wcap=wcap)
     w = fakeusb.WORLD
     w.reset()
     w.env = s.env
@@ -97,6 +97,12 @@ def run_contract(params, ch):
                 viol.append({'msg': '%s got timeout=%r ms for transport_timeout_s=%r (default %r), expected %d' % (c[0], c[3], T, D, want_ms)})
             if c[0] == 'bulkRead' and c[2] != size:
                 viol.append({'msg': 'bulkRead length %r, bulk_read was asked for %d' % (c[2], size)})
+        n2 = len(w.calls)
+        tr.bulk_write(b'default-timeout', None)
+        dflt = int(1000 * (D if D is not None else 10))
+        for c in w.calls[n2:]:
+            if c[0] == 'bulkWrite' and c[3] != dflt:
+                viol.append({'msg': 'after connect(%r) a bulk_write without timeout used %r ms, the default is %d ms' % (T, c[3], dflt)})
         check_calls(w, viol, D)
         # close, double close, use after close, reconnect
         tr.close()
@@ -143,7 +149,7 @@ def run_session(params, ch):
     from adb_shell import exceptions
     ref_res, ref_host, ref_fs = mem_reference()
     faults = {int(k): v for k, v in params.get('faults', [])}
-    s, w = usb_session(ch, scen.std_cfg(), default_timeout=params.get('D'), frag=params.get('frag', False), faults=faults)
+    s, w = usb_session(ch, scen.std_cfg(), default_timeout=params.get('D'), frag=params.get('frag', False), faults=faults, wcap=params.get('wcap', False))
     if params.get('unplug') is not None:
         w.unplug_at = params['unplug']
         faults = {params['unplug']: 'nodevice'}
@@ -245,6 +251,8 @@ def parts(tier):
     k = 2 if tier == 'quick' else 3
     out.append(Part('session-short-transfers', [{'D': D, 'frag': True} for D in (None, 3)], run_session, {'frag': k}, split=2,
                     what='whole AdbDeviceUsb session, backend short transfers at every placement', bound='short-transfer deviations <= %d' % k))
+    out.append(Part('session-short-writes', [{'D': None, 'wcap': True}], run_session, {'wcap': 2 if tier == 'quick' else 3}, split=2,
+                    what='whole AdbDeviceUsb session, the backend accepting fewer bytes than offered (bulkWrite returns the count) at every placement', bound='short-write deviations <= %d' % (2 if tier == 'quick' else 3)))
     # every bulk call index of the session x error classes
     s, w = usb_session(FixedChooser(), scen.std_cfg())
     try:
